@@ -29,6 +29,10 @@ FLAT = ["C", "Db", "D", "Eb", "E", "F", "Gb", "G", "Ab", "A", "Bb", "B"]
 RESPELL = {"C#": "Db", "D#": "Eb", "F#": "Gb", "G#": "Ab", "A#": "Bb", "B#": "C", "Cb": "B", "E#": "F", "Fb": "E",
            "F##": "G", "Abb": "G"}
 RESPELL.update({v: k for k, v in list(RESPELL.items())})
+# double accidentals that cross the octave break (B## = C#, Cbb = Bb) and their neighbours; kept in a second table
+# because C#, Bb, F#, Eb already have a partner above
+RESPELL2 = {"B##": "C#", "Cbb": "Bb", "E##": "F#", "Fbb": "Eb", "A##": "B", "Dbb": "C"}
+RESPELL2.update({v: k for k, v in list(RESPELL2.items())})
 LETTER = {"C": 0, "D": 2, "E": 4, "F": 5, "G": 7, "A": 9, "B": 11}
 
 
@@ -129,13 +133,15 @@ def transpose_label(l, t, table):
     return table[(pc(l[:i]) + t) % 12] + l[i:]
 
 
-def respell_label(l):
+def respell_label(l, table=None):
     if l in ("N", "X"):
         return None
     i = 1
     while i < len(l) and l[i] in "#b":
         i += 1
-    alt = RESPELL.get(l[:i])
+    alt = (table or RESPELL).get(l[:i])
+    if alt is None and table is None:
+        alt = RESPELL2.get(l[:i])
     return None if alt is None else alt + l[i:]
 
 
@@ -209,7 +215,10 @@ def shard_respell(arg):
     tier, phase, ref_roots = arg
     acc = core.Acc(PID)
     bd = bodies(tier)
-    roots = sorted(RESPELL)
+    table = RESPELL2 if ref_roots[0] in RESPELL2 and ref_roots[0] not in RESPELL else RESPELL
+    if len(ref_roots) > 1 and ref_roots[1] == "table2":
+        table, ref_roots = RESPELL2, ref_roots[:1]
+    roots = sorted(table)
     est_bodies = ["", ":min", ":7", ":maj7", ":min7/b3", ":sus4", ":maj/3", ":9"]
     for rr in ref_roots:
         refs = [label(rr, b) for b in bd]
@@ -222,8 +231,8 @@ def shard_respell(arg):
             acc.tick({"kind": "chordblock", "tag": "respell", "ref": rl[:3], "est": el[:3]})
             # respell only the reference, only the estimate, and both
             for who in ("ref", "est", "both"):
-                r2 = [respell_label(l) if who in ("ref", "both") else l for l in rl]
-                e2 = [respell_label(l) if who in ("est", "both") else l for l in el]
+                r2 = [respell_label(l, table) if who in ("ref", "both") else l for l in rl]
+                e2 = [respell_label(l, table) if who in ("est", "both") else l for l in el]
                 acc.transitions += 2 * len(COMPARE)
                 try:
                     v1 = vectors(rl, el)
@@ -393,7 +402,7 @@ def run(run):
     run.explore("chord comparisons under joint transposition", __name__, "shard_chord",
                 [(tier, ph, t, tn) for t in range(12) for tn in ("sharp", "flat")])
     run.explore("chord comparisons under enharmonic respelling", __name__, "shard_respell",
-                [(tier, ph, [r]) for r in sorted(RESPELL)])
+                [(tier, ph, [r]) for r in sorted(RESPELL)] + [(tier, ph, [r, "table2"]) for r in sorted(RESPELL2)])
     pool = ["C:maj", "G:7/3", "A:min7", "N", "D:sus4", "F#:dim", "X", "Bb:maj6", "E:min/b3", "Ab:9", "C#:hdim7", "B:aug",
             "Eb:maj7", "G", "D:min(9)"]
     labelsets = [tuple(pool[(i + j * 3) % len(pool)] for j in range(4)) for i in range(len(pool))]
